@@ -80,6 +80,6 @@ func clientRun(args []string) error {
 		}
 		n++
 	}
-	fmt.Printf("{\"walks\":%d,\"steps\":%d,\"events\":%d,\"hangs\":%d,\"gate_missing\":%d}\n", n, rn.Steps, sink.N, rn.Hangs, rn.GateMissing)
+	fmt.Printf("{\"walks\":%d,\"steps\":%d,\"events\":%d,\"hangs\":%d,\"gate_missing\":%d,\"settle_timeouts\":%d}\n", n, rn.Steps, sink.N, rn.Hangs, rn.GateMissing, rn.SettleTimeouts)
 	return nil
 }
